@@ -37,11 +37,12 @@ git -C $WT checkout -q -- . ; git -C $WT clean -qfd
 echo "demo_with_patch=$DEMO_WITH demo_without_patch=$DEMO_WITHOUT (placed in $PL)" | tee -a $R
 # now our check, on /repo itself
 if [ -n "$(git -C /repo status --porcelain)" ]; then echo "REPO DIRTY, abort"; exit 4; fi
+rm -rf /verif/.work/evbak && cp -r /verif/evidence /verif/.work/evbak
 git -C /repo apply $DST/patch.diff || { echo "apply to /repo failed"; exit 3; }
 ( cd /verif && VERIF_SOFT_DEADLINE_S=${VERIF_SOFT_DEADLINE_S:-600} ./run.sh $CID $TIER ) > $DST/check_$CID.$TIER.log 2>&1; RC=$?
 git -C /repo checkout -q -- . ; git -C /repo clean -qfd
 NV=$(grep -c '^VIOLATION' $DST/check_$CID.$TIER.log)
 echo "check=$CID tier=$TIER exit=$RC violation_lines=$NV" | tee -a $R
 grep -m2 -A1 'kind=' $DST/check_$CID.$TIER.log | cut -c1-400
-git -C /verif checkout -q -- evidence 2>/dev/null
+rm -rf /verif/evidence && mv /verif/.work/evbak /verif/evidence; rm -rf /verif/replays/$CID
 exit 0
